@@ -271,4 +271,35 @@ void check_swizzle_vs_dynamic(int id, uint64_t seed)
     bool ok = std::memcmp(a, b, sizeof a) == 0;
     verdict(id, ok, ok ? "" : "swizzle(constant mask) differs from swizzle(run-time index batch of the same values)");
 }
+// shuffle(x, y, constant mask) against its run-time emulation on the converted index batch:
+// select(idx < n, swizzle(x, idx mod n), swizzle(y, idx mod n))
+template <class T, class U, U... Idx>
+void check_shuffle_vs_dynamic(int id, uint64_t seed)
+{
+    using B = xs::batch<T, A>;
+    using UB = xs::batch<U, A>;
+    constexpr size_t n = B::size;
+    T x[n], y[n], a[n], b[n];
+    fill_tagged(x, n, 0, seed);
+    fill_tagged(y, n, n, seed);
+    constexpr xs::batch_constant<U, A, Idx...> c {};
+    B bx = B::load_unaligned(x), by = B::load_unaligned(y);
+    xs::shuffle(bx, by, c).store_unaligned(a);
+    UB idx = c.as_batch();
+    UB low = idx & UB(U(n - 1));
+    B fromx = xs::swizzle(bx, low), fromy = xs::swizzle(by, low);
+    U iv[n];
+    idx.store_unaligned(iv);
+    fromx.store_unaligned(b);
+    T ty[n];
+    fromy.store_unaligned(ty);
+    for (size_t i = 0; i < n; ++i)
+        if (iv[i] >= n)
+            b[i] = ty[i];
+    bool ok = std::memcmp(a, b, sizeof a) == 0;
+    size_t bad = 0;
+    while (!ok && bad < n && std::memcmp(&a[bad], &b[bad], sizeof(T)) == 0)
+        ++bad;
+    verdict(id, ok, ok ? "" : "shuffle(constant mask) lane " + std::to_string(bad) + " differs from the run-time emulation (dynamic swizzles of the converted index batch)");
+}
 #endif
